@@ -601,7 +601,7 @@ class StringlyFromDict:
 
 
 # =================================================================== linter_utils: metadata access and the generic loader
-from pyvc.api import ClassOf, uf  # noqa: E402
+from pyvc.api import ClassOf, EnumOf, uf  # noqa: E402
 
 LintCtxT = Rec("LintContext", file_path=Opt(PathT), file_content=Opt(Str),
                language=Str, metadata=Any)
@@ -627,8 +627,16 @@ class GetMetadataValue:
         return metadata_of(context).get(key, default)
 
 
-@contract(LU + "get_language", props=["C05", "C08", "C10"], types=dict(context=LintCtxT), returns=Opt(Str))
+LangCtxT = Rec("LintContext", file_path=Opt(PathT), file_content=Opt(Str),
+               language=EnumOf("src/core/constants.py::Language"), metadata=Any)
+
+
+@contract(LU + "get_language", props=["C05", "C08", "C10"], types=dict(context=LangCtxT), returns=Any)
 class GetLanguage:
+    """Returns the context's language OBJECT unchanged -- the value string the detector produced; it may be a plain str or
+    a member of the str-mixin enum core.constants.Language (whose str() is 'Language.X', not the value), so no
+    conversion may be applied on the way to `language in section` / section[language]."""
+
     def value(context):
         return context.language
 
